@@ -471,12 +471,23 @@ def width_of(x):
     if w is not None:
         return w
     c = ctx()
-    for k in (1, 8, 16, 32, 64, 128):
-        r, _ = c.check(z3.Not(z3.And(x.e >= 0, x.e < z3.IntVal(1 << k))), timeout=1000)
-        if r == z3.unsat:
-            x.width = k
-            return k
-    return None
+    cache = c.ghost.setdefault("width_cache", {})
+    key = x.e.get_id()
+    hit = cache.get(key)
+    if hit is not None and hit[0] == len(c.pc):
+        return hit[1]
+    res = None
+    # one query decides the common negative case (the value may be negative)
+    r, _ = c.check(x.e < 0, timeout=1000)
+    if r == z3.unsat:
+        for k in (1, 8, 16, 32, 64, 128):
+            r, _ = c.check(z3.Not(x.e < z3.IntVal(1 << k)), timeout=1000)
+            if r == z3.unsat:
+                x.width = k
+                res = k
+                break
+    cache[key] = (len(c.pc), res)
+    return res
 
 
 def small_range(o):
@@ -624,8 +635,59 @@ def _learn_disjoint(p, q):
     return True
 
 
+def _assume_signed_range(r, n):
+    """a bitwise combination (&, |, ^) of two values of the signed n-bit range lies in that range
+    (all bits from n-1 upwards are copies of one bit).  Added as a fact so that the solver need not
+    re-derive it from the bit sum."""
+    if isinstance(r, SymInt):
+        ctx().assume(z3.And(r.e >= -(1 << (n - 1)), r.e < (1 << (n - 1))))
+
+
+def _signed_width2(a, b):
+    if not (isinstance(a, SymInt) and isinstance(b, SymInt)):
+        return None
+    if getattr(a, "kb", None) is not None or getattr(b, "kb", None) is not None:
+        return None
+    c = ctx()
+    cache = c.ghost.setdefault("swidth_cache", {})
+    key = (a.e.get_id(), b.e.get_id())
+    hit = cache.get(key)
+    if hit is not None and hit[0] == len(c.pc):
+        return hit[1]
+    res = None
+    for cand in (8, 16, 32, 64):
+        lo, hi = z3.IntVal(-(1 << (cand - 1))), z3.IntVal(1 << (cand - 1))
+        r, _ = c.check(z3.Not(z3.And(a.e >= lo, a.e < hi, b.e >= lo, b.e < hi)), timeout=1500)
+        if r == z3.unsat:
+            res = cand
+            break
+    cache[key] = (len(c.pc), res)
+    return res
+
+
+def _and_signed_n(a, b):
+    """the signed width n under which `a & b` was bit-blasted (None if another rule applied)"""
+    if not (isinstance(a, SymInt) and isinstance(b, SymInt)):
+        return None
+    d = ctx().ghost.get("and_signed_n", {})
+    return d.get((a.e.get_id(), b.e.get_id()), d.get((b.e.get_id(), a.e.get_id())))
+
+
 def and_sym(a, b):
-    """a & b for two symbolic operands."""
+    """a & b for two symbolic operands (memoised per path: the same operands give the same term)."""
+    if isinstance(a, SymInt) and isinstance(b, SymInt):
+        memo = ctx().ghost.setdefault("and_memo", {})
+        key = (a.e.get_id(), b.e.get_id())
+        if key in memo:
+            return memo[key]
+        r = _and_sym(a, b)
+        memo[key] = r
+        memo[(key[1], key[0])] = r
+        return r
+    return _and_sym(a, b)
+
+
+def _and_sym(a, b):
     c = ctx()
     if isinstance(a, SymInt) and isinstance(b, SymInt):
         if _learn_disjoint(a, b) or _learn_disjoint(b, a):
@@ -655,7 +717,23 @@ def and_sym(a, b):
     wa, wb = width_of(a), width_of(b)
     ws = [w for w in (wa, wb) if w is not None]
     if not ws:
-        raise Undecided("bitwise operation on two unbounded symbolic integers")
+        # both operands possibly negative: if both provably lie in the signed n-bit range, every bit
+        # from n-1 upwards equals the sign bit (infinite two's complement), hence
+        #   a & b == -(sa*sb) * 2^(n-1) + sum_{i<n-1} bit_i(a)*bit_i(b) * 2^i
+        n = _signed_width2(a, b)
+        if n is None:
+            raise Undecided("bitwise operation on two unbounded symbolic integers")
+        ea, eb = a.e, b.e
+        terms = []
+        for i in range(n - 1):
+            ba = div_pow2(ea, i) % 2
+            bb = div_pow2(eb, i) % 2
+            terms.append(z3.If(z3.And(ba == 1, bb == 1), z3.IntVal(1 << i), z3.IntVal(0)))
+        terms.append(z3.If(z3.And(ea < 0, eb < 0), z3.IntVal(-(1 << (n - 1))), z3.IntVal(0)))
+        r = mk(z3.Sum(terms))
+        _assume_signed_range(r, n)
+        c.ghost.setdefault("and_signed_n", {})[(a.e.get_id(), b.e.get_id())] = n
+        return r
     k = min(ws)
     if k > MAX_BLAST:
         raise Undecided("bitwise operation wider than %d bits" % MAX_BLAST)
@@ -1064,6 +1142,10 @@ class SymInt:
             ka, ko = self.kb, self._kb_of(o)
             if ka is not None and ko is not None:
                 r.kb = ka | ko
+            else:
+                n = _and_signed_n(self, o)
+                if n is not None:
+                    _assume_signed_range(r, n)
         return r
 
     __ror__ = __or__
@@ -1079,6 +1161,10 @@ class SymInt:
             ka, ko = self.kb, self._kb_of(o)
             if ka is not None and ko is not None:
                 r.kb = ka | ko
+            else:
+                n = _and_signed_n(self, o)
+                if n is not None:
+                    _assume_signed_range(r, n)
         return r
 
     __rxor__ = __xor__
